@@ -17,11 +17,45 @@ type Op struct {
 	Kind   string `json:"op"`
 	Setter int    `json:"setter,omitempty"`
 	Value  B      `json:"value"`
+	// Cur: the setter is called with exactly what the corresponding getter returns at that moment
+	// (SetHost(u.Host()), SetHash(u.Hash()), …) instead of Value
+	Cur bool `json:"cur,omitempty"`
+}
+
+// valueFor returns the value a set operation passes: Value, or the current getter's result.
+func valueFor(u *url.Url, op Op) string {
+	if !op.Cur {
+		return string(op.Value)
+	}
+	switch op.Setter {
+	case spec.SetterProtocol:
+		return u.Protocol()
+	case spec.SetterUsername:
+		return u.Username()
+	case spec.SetterPassword:
+		return u.Password()
+	case spec.SetterHost:
+		return u.Host()
+	case spec.SetterHostname:
+		return u.Hostname()
+	case spec.SetterPort:
+		return u.Port()
+	case spec.SetterPathname:
+		return u.Pathname()
+	case spec.SetterSearch:
+		return u.Search()
+	case spec.SetterHash:
+		return u.Hash()
+	}
+	return string(op.Value)
 }
 
 func (o Op) String() string {
 	switch o.Kind {
 	case "set":
+		if o.Cur {
+			return spec.SetterNames[o.Setter] + "=<its current value>"
+		}
 		return spec.SetterNames[o.Setter] + "=" + quote(string(o.Value))
 	case "resolve":
 		return "resolve(" + quote(string(o.Value)) + ")"
@@ -73,7 +107,11 @@ func genHistory(t *rapid.T, o histOpts) CaseHist {
 			c.Ops = append(c.Ops, Op{Kind: "clone"})
 		default:
 			which := rapid.IntRange(0, spec.NumSetters-1).Draw(t, "setter")
-			c.Ops = append(c.Ops, Op{Kind: "set", Setter: which, Value: B(gen.SetterValue(t, "value", which))})
+			if rapid.IntRange(0, 11).Draw(t, "cur") == 0 {
+				c.Ops = append(c.Ops, Op{Kind: "set", Setter: which, Cur: true})
+			} else {
+				c.Ops = append(c.Ops, Op{Kind: "set", Setter: which, Value: B(gen.SetterValue(t, "value", which))})
+			}
 		}
 	}
 	return c
